@@ -336,12 +336,34 @@ func scenario(e *simcore.Env, tp *simcore.Tape, g engine) {
 
 	// gates: armed only during the race phase, for a tape-chosen subset of sites
 	var racing atomic.Bool
-	// All sites or none: with a partial subset the goroutines between two armed gates run freely in parallel and
-	// which gate each of them reaches next depends on the real scheduler (seen as determinism mismatches). With every
-	// site armed a released goroutine performs at most one synchronising operation before it parks again.
-	gatesOn := tp.Weighted(1, 3) == 1
-	pct := map[bool]int{false: 0, true: 100}[gatesOn]
-	simcore.EnableGates(func(actor, site string) bool { return gatesOn && racing.Load() })
+	// Which gates park (race phase only). The snapshot request and the concurrent writers park at EVERY site they
+	// reach. Engine goroutines (introducer, flusher, merger, rotation, ...) park only in the middle of a maintenance
+	// operation (flush: part files written, not yet introduced; merge; idle-close; retention), never in front of their
+	// loop's select: a loop parked there while two senders pile up makes Go's select pick at random, and with an
+	// arbitrary subset of sites armed the goroutines between two gates race freely (both were seen as determinism
+	// mismatches). Everything else runs atomically between two driver steps.
+	gatesOn := tp.Weighted(1, 4) == 1
+	maint := tp.Choose(4) // 0 none, 1 flush/merge, 2 idle-close/retention/delete, 3 both
+	maintSites := [][]string{nil,
+		{"flusher.go:flush#", "merger.go:mergePartsThenSendIntroduction#", "merger.go:mergeParts#", "merger.go:mergeBlocks#"},
+		{"segment.go:closeIfIdle#", "segment.go:closeResourcesLocked#", "segment.go:performDelete#", "segment.go:delete#", "segment.go:remove#", "segment.go:closeIdleSegments#", "segment.go:segments#", "segment.go:acquire#", "rotation.go:run#"},
+	}
+	maintSites = append(maintSites, append(append([]string{}, maintSites[1]...), maintSites[2]...))
+	pct := fmt.Sprintf("%v/maint%d", gatesOn, maint)
+	simcore.EnableGates(func(actor, site string) bool {
+		if !gatesOn || !racing.Load() {
+			return false
+		}
+		if actorRank(actor) < 2 {
+			return true
+		}
+		for _, pre := range maintSites[maint] {
+			if strings.HasPrefix(site, pre) {
+				return true
+			}
+		}
+		return false
+	})
 	// The driver goroutine itself never enters the engine: with cooperative locks a named actor parks on
 	// contention and somebody has to release it. Every engine operation the driver issues runs on a helper
 	// goroutine (actor "main"; the engine loops it spawns inherit "main/<site>#n") while the driver releases
@@ -438,7 +460,7 @@ func scenario(e *simcore.Env, tp *simcore.Tape, g engine) {
 	}
 	live = n
 	sleep(time.Duration(tp.Range(1, 600)) * time.Minute)
-	e.Event("%s flags=%v gates=%d%%", g.describe(), flags, pct)
+	e.Event("%s flags=%v gates=%s", g.describe(), flags, pct)
 
 	var units []*unit
 	known := map[int64]row{}
